@@ -14,8 +14,17 @@ Definition sel_case : Type := list tx * N * list (N * N) * list N * list N * boo
 Fixpoint lookup (k : N) (l : list (N * N)) : N :=
   match l with [] => 2 | (a, v) :: r => if a =? k then v else lookup k r end.
 
-Definition verdict_of (script : list (N * N)) (t : tx) : verdict :=
-  match lookup (tid t) script with 0 => VerifyFails | 1 => ExecuteFails | _ => Good end.
+(* scripted verdict of a transaction given the transactions executed (selected) before it: codes 0 verify fails,
+   1 execute fails, 2 good, 3 good iff an EVEN number of transactions were executed before (else verification fails),
+   4 good iff an ODD number were (else execution fails): outcomes that depend on the state reached so far *)
+Definition verdict_of (script : list (N * N)) (acc : list tx) (t : tx) : verdict :=
+  match lookup (tid t) script with
+  | 0 => VerifyFails
+  | 1 => ExecuteFails
+  | 3 => if Nat.even (length acc) then Good else VerifyFails
+  | 4 => if Nat.odd (length acc) then Good else ExecuteFails
+  | _ => Good
+  end.
 
 Fixpoint find_tx (pool : list tx) (c : N) : option tx :=
   match pool with [] => None | t :: r => if tid t =? c then Some t else find_tx r c end.
@@ -26,7 +35,7 @@ Fixpoint resolve (pool : list tx) (cs : list N) : option (list tx) :=
   | c :: r => match find_tx pool c, resolve pool r with Some t, Some l => Some (t :: l) | _, _ => None end
   end.
 
-Fixpoint splits_forall (f : list tx -> tx -> list tx -> bool) (pre rest : list tx) : bool :=
+Fixpoint splits_forall {A : Type} (f : list A -> A -> list A -> bool) (pre rest : list A) : bool :=
   match rest with
   | [] => true
   | t :: r => f pre t r && splits_forall f (pre ++ [t]) r
@@ -47,33 +56,42 @@ Fixpoint prefix_eqb (a b : list tx) : bool :=   (* a is a prefix of b *)
   | _, _ => false
   end.
 
+(* every tried transaction with its outcome, the outcome judged after the successful ones before it *)
+Fixpoint tagged (oc : list tx -> tx -> verdict) (acc trace : list tx) : list (tx * bool) :=
+  match trace with
+  | [] => []
+  | t :: r => if is_good (oc acc t) then (t, true) :: tagged oc (acc ++ [t]) r else (t, false) :: tagged oc acc r
+  end.
+
 (* the property text, clause by clause *)
 Definition sel_spec_b (pool : list tx) (limit : N) (script : list (N * N)) (trace out : list tx) : bool :=
-  let oc := fun (_ : list tx) t => verdict_of script t in
+  let oc := verdict_of script in
+  let tg := tagged oc [] trace in
   let ss := senders_of pool [] in
+  let of_s (s : N) (l : list (tx * bool)) := filter (fun p => sender (fst p) =? s) l in
   (* the result is the successful part of what was tried, in order *)
-  txs_eqb out (goods oc [] trace) &&
+  txs_eqb out (map fst (filter snd tg)) &&
   (* per sender: taken from the lowest nonce upwards, without gaps *)
   forallb (fun s => prefix_eqb (of_sender s trace) (sender_queue pool s)) ss &&
   (* payload size limit *)
   (sum_size out <=? limit) &&
   (* each tried transaction has maximal fee priority among the next transactions of all senders not dropped *)
-  splits_forall (fun pre t _ =>
+  splits_forall (fun pre p _ =>
       forallb (fun s =>
-          if forallb (fun p => is_good (verdict_of script p)) (of_sender s pre)
-          then match nth_error (sender_queue pool s) (length (of_sender s pre)) with
-               | Some u => prio u <=? prio t
+          if forallb snd (of_s s pre)
+          then match nth_error (sender_queue pool s) (length (of_s s pre)) with
+               | Some u => prio u <=? prio (fst p)
                | None => true
                end
-          else true) ss) [] trace &&
+          else true) ss) [] tg &&
   (* a sender is dropped after its first failing transaction *)
-  splits_forall (fun _ t post => is_good (verdict_of script t) || negb (existsb (fun p => sender p =? sender t) post)) [] trace.
+  splits_forall (fun _ p post => snd p || negb (existsb (fun q => sender (fst q) =? sender (fst p)) post)) [] tg.
 
 Definition check_sel (c : sel_case) : N :=
   let '(pool, limit, script, trace_c, out_c, pan) := c in
   match resolve pool trace_c, resolve pool out_c with
   | Some trace, Some out =>
-      code (negb pan && valid_selection limit (fun _ t => verdict_of script t) pool trace out)
+      code (negb pan && valid_selection limit (verdict_of script) pool trace out)
            (negb pan && sel_spec_b pool limit script trace out)
   | _, _ => 3
   end.
